@@ -63,6 +63,33 @@ for _f in sorted(_glob.glob(os.path.join(HERE, 'specs', '*.py'))):
     exec(compile(open(_f).read(), _f, 'exec'), globals())
 
 
+# ---- C13: excelutil._ArrayFormulaContext.fit_to_range.  The context object is
+# modelled by its ctx_address, an address by its size, an AddressSize by the
+# pair (height, width) (coq/Lib/Py.v attr_*, py_address_size).
+_specs_before_arrayfit = specs
+
+
+def specs(repo):     # noqa: F811
+    S = _specs_before_arrayfit(repo)
+    ext = excelutil_externs()
+    ext['list_like'] = ('func', 'excelutil.f_list_like',
+                        FuncInfo('list_like', ['data'], {}, False, 'f_list_like'))
+    S['arrayfit'] = dict(
+        pymod='pycel.excelutil',
+        path=os.path.join(repo, 'src', 'pycel', 'excelutil.py'),
+        consts=[],
+        funcs=['_ArrayFormulaContext.fit_to_range'],
+        externs=ext,
+        libcalls={'AddressSize': ('py_address_size', 2),
+                  '__attrs__': {'ctx_address': 'attr_ctx_address', 'size': 'attr_size',
+                                'width': 'attr_width', 'height': 'attr_height'}},
+    )
+    return S
+
+
+ORDER = ORDER + ['arrayfit']
+
+
 def generate(repo, out, modules=None):
     sys.path.insert(0, os.path.join(repo, 'src'))
     S = specs(repo)
